@@ -263,7 +263,7 @@ func (c *hs13Classifier) classify(d vDatagram) []hs13Rec {
 
 // ---------------------------------------------------------------- the scripted run
 
-// runHs13: like runC02 (mask = action per emitted datagram index: pass | drop | dup | hold:k, then
+// runHs13: like runC02 (mask = action per emitted datagram index: pass | drop | dup | hold:k | late:ms, then
 // reliable), with every record opened and blanket-silence options.
 func runHs13(t *testing.T, v c02Variant, mask []string, opt hs13Opt) hs13Case {
 	t.Helper()
@@ -297,6 +297,11 @@ func runHs13(t *testing.T, v c02Variant, mask []string, opt hs13Opt) hs13Case {
 		after int
 	}
 	var helds []held
+	type late struct {
+		d  vDatagram
+		at time.Duration
+	}
+	var lates []late // kept sorted by release time
 	delivered := 0
 	deliver := func(d vDatagram) {
 		res.Events = append(res.Events, hs13Event{Ev: "deliver", Idx: d.Idx, Side: d.To, T: lab.Net.now().Milliseconds()})
@@ -349,6 +354,17 @@ func runHs13(t *testing.T, v c02Variant, mask []string, opt hs13Opt) hs13Case {
 				deliver(d)
 				deliver(d)
 				res.LastFault = lab.Net.now().Milliseconds()
+			case strings.HasPrefix(act, "late:"): // delivered that many virtual milliseconds later
+				ms := 0
+				fmt.Sscanf(act, "late:%d", &ms)
+				l := late{d: d, at: lab.Net.now() + time.Duration(ms)*time.Millisecond}
+				i := len(lates)
+				for i > 0 && lates[i-1].at > l.at {
+					i--
+				}
+				lates = append(lates, late{})
+				copy(lates[i+1:], lates[i:])
+				lates[i] = l
 			default: // hold:k
 				k := 1
 				fmt.Sscanf(act, "hold:%d", &k)
@@ -366,7 +382,14 @@ func runHs13(t *testing.T, v c02Variant, mask []string, opt hs13Opt) hs13Case {
 				}
 			}
 		}
-		if lab.bothDone() && len(helds) == 0 {
+		for len(lates) > 0 && lates[0].at <= lab.Net.now() {
+			l := lates[0]
+			lates = lates[1:]
+			deliver(l.d)
+			res.LastFault = lab.Net.now().Milliseconds()
+			progressed = true
+		}
+		if lab.bothDone() && len(helds) == 0 && len(lates) == 0 {
 			break
 		}
 		if progressed {
@@ -383,7 +406,11 @@ func runHs13(t *testing.T, v c02Variant, mask []string, opt hs13Opt) hs13Case {
 		if !time.Now().Before(deadline) {
 			break
 		}
-		tm := time.NewTimer(time.Until(deadline))
+		wait := time.Until(deadline)
+		if len(lates) > 0 && lates[0].at-lab.Net.now() < wait {
+			wait = lates[0].at - lab.Net.now()
+		}
+		tm := time.NewTimer(wait)
 		select {
 		case <-lab.Net.notify:
 		case <-tm.C:
